@@ -98,7 +98,7 @@ def main():
             'replay_cmd_template': './check %s --replay {path}' % p,
             'engine': '+'.join(engines),
             'level_claimed': {
-                'category': 'proof',
+                'category': 'proof' if any(U.UNITS[u].get('complete') for u in units_t) else 'model_checking',
                 'text': text + ' Units quick: %s; thorough: %s.%s' % (
                     ', '.join(units_q), ', '.join(units_t),
                     (' Bounded stand-ins (never counted as proved): ' + ', '.join(
